@@ -38,13 +38,29 @@ id=${1:?property id}; tier=${2:-${VERIF_TIER:-quick}}
 parts=$(python3 tools/parts.py list "$id")
 [ -n "$parts" ] || { echo "unknown property $id" >&2; exit 2; }
 rm -f "$OUT/evidence/$id.json" "$OUT"/evidence/parts/"$id".*.json
-rc=0
+# build every binary the property needs (per-binary locks), then run the parts, up to PAR at a time
 while IFS=$'\t' read -r cmd part race args; do
   build "$cmd" "$race" || { echo "INTERNAL: build of $cmd failed" >&2; exit 2; }
+done <<< "$(echo "$parts" | sort -u -k1,1 -k3,3)"
+PAR=${VERIF_PART_PAR:-2}
+logd=$(mktemp -d .work/parts.XXXXXX)
+n=0
+while IFS=$'\t' read -r cmd part race args; do
   bin=.bin/$cmd$SUF; [ "$race" = 1 ] && bin=.bin/$cmd$SUF.race
-  VERIF_TIER=$tier VERIF_PART=$part VERIF_BIN="$PWD/$bin" "$bin" "$id" "$tier" $args
-  r=$?
-  if [ $r -eq 1 ]; then rc=1; elif [ $r -ne 0 ]; then echo "INTERNAL: $cmd ($part) exited $r" >&2; exit 2; fi
+  (
+    VERIF_TIER=$tier VERIF_PART=$part VERIF_BIN="$PWD/$bin" "$bin" "$id" "$tier" $args > "$logd/$part.log" 2>&1
+    echo $? > "$logd/$part.rc"
+  ) &
+  n=$((n+1))
+  if [ $((n % PAR)) -eq 0 ]; then wait; fi
 done <<< "$parts"
+wait
+rc=0
+while IFS=$'\t' read -r cmd part race args; do
+  cat "$logd/$part.log"
+  r=$(cat "$logd/$part.rc" 2>/dev/null || echo 2)
+  if [ "$r" -eq 1 ]; then rc=1; elif [ "$r" -ne 0 ]; then echo "INTERNAL: $cmd ($part) exited $r" >&2; rm -rf "$logd"; exit 2; fi
+done <<< "$parts"
+rm -rf "$logd"
 python3 tools/parts.py merge "$id" "$tier" || exit 2
 exit $rc
